@@ -30,6 +30,8 @@ fn gen_name(rng: &mut Rng, i: usize, xml_ok_only: bool) -> String {
         _ => "x".repeat(1 + rng.usize(20)),
     };
     let _ = xml_ok_only;
+    // every now and then a name of exactly 31 UTF-16 units (the format limit)
+    let base = if rng.chance(1, 6) { format!("{}{}", base, "m".repeat(31)) } else { base };
     // unique, at most 31 UTF-16 units
     let tag = format!("{}", i + 1);
     let mut s: String = base;
@@ -119,13 +121,19 @@ fn one(rng: &mut Rng, fmt: &str, out: &mut UnitResult, ctxj: serde_json::Value) 
                     r.col_rel = rng.chance(1, 5);
                     r
                 };
-                let e = if rng.bool() {
+                let e = if fmt == "xlsb" && !tok_names.is_empty() && rng.chance(1, 3) {
+                    // a name defined in terms of an earlier name (PtgName, 1-based index); xlsb only:
+                    // the xls reader decodes references, not general name formulas
+                    out.feat(&format!("{}:name_refers_to_earlier_name", fmt));
+                    Ex::Bin(2, Box::new(Ex::Name(1 + rng.usize(tok_names.len()))), Box::new(Ex::Int(2)))
+                } else if rng.bool() {
                     Ex::Ref3d(x, mk(rng))
                 } else {
                     let (a, b) = (mk(rng), mk(rng));
                     Ex::Area3d(x, fml::CRef { row: a.row.min(b.row), col: a.col.min(b.col), ..a.clone() }, fml::CRef { row: a.row.max(b.row), col: a.col.max(b.col), ..b })
                 };
-                want_names.push((name.clone(), e.a1(&Env { xti_sheets: &sheet_plain, names: &[] })));
+                let earlier: Vec<String> = tok_names.iter().map(|t: &(String, Ex)| t.0.clone()).collect();
+                want_names.push((name.clone(), e.a1(&Env { xti_sheets: &sheet_plain, names: &earlier })));
                 tok_names.push((name, e));
             }
         }
@@ -277,7 +285,7 @@ impl Prop for C16 {
         tier.pick(16, 160)
     }
     fn mandatory(&self, _t: Tier) -> Vec<String> {
-        ["fmt:xlsx", "fmt:xlsb", "fmt:xls", "fmt:ods", "kind:Work", "kind:Chart", "kind:Dialog", "kind:Macro", "kind:Vba", "visible:Visible", "visible:Hidden", "visible:VeryHidden", "date1904", "sheets>8", "defined_names:0", "defined_names:1", "defined_names:2", "ods:dde_links", "xlsx:name_in_several_scopes"]
+        ["fmt:xlsx", "fmt:xlsb", "fmt:xls", "fmt:ods", "kind:Work", "kind:Chart", "kind:Dialog", "kind:Macro", "kind:Vba", "visible:Visible", "visible:Hidden", "visible:VeryHidden", "date1904", "sheets>8", "defined_names:0", "defined_names:1", "defined_names:2", "ods:dde_links", "xlsx:name_in_several_scopes", "xlsb:name_refers_to_earlier_name"]
             .iter().map(|s| s.to_string()).collect()
     }
     fn run_unit(&self, ctx: &Ctx, unit: u64, out: &mut UnitResult) {
